@@ -22,7 +22,7 @@ import (
 )
 
 // c15Case: per connection a sequence of requests, each a batch of placeholder actions.
-// Actions: set | read | readorid | clear | fail | setfail | sync
+// Actions: set | setempty | read | readorid | readexplicit | nested | clear | fail | failonce | setfail | sync
 type c15Case struct {
 	Conns  [][][]string `json:"connections"`
 	Direct bool         `json:"direct_calls"` // call HandleRequest from goroutines instead of going through a Server
@@ -108,6 +108,9 @@ func c15Executor(b *barrier, mw string) *kmipserver.BatchExecutor {
 		switch action {
 		case "set":
 			kmipserver.SetIdPlaceholder(ctx, val)
+		case "setempty":
+			// the empty string is a value like any other: it is what later items observe
+			kmipserver.SetIdPlaceholder(ctx, "")
 		case "readorid":
 			id, err := kmipserver.GetIdOrPlaceholder(ctx, "")
 			if err != nil {
@@ -208,7 +211,7 @@ func c15Model(conn, reqIdx int, actions []string) (accept [][]string) {
 			} else {
 				accept = append(accept, obs)
 			}
-		case "clear":
+		case "clear", "setempty":
 			accept = append(accept, obs)
 			ph, maybe = "", false
 		case "fail":
@@ -426,7 +429,7 @@ func c15Run(t *testing.T, c c15Case) (sig string, err error) {
 
 func TestC15Placeholder(t *testing.T) {
 	const name = "TestC15Placeholder"
-	rec := evid.New("C15", name, "1..4 connections (through a real Server over an in-memory listener in a synctest bubble) or 2..6 goroutines calling HandleRequest directly, each issuing 0..2 requests that are rejected at message level (unsupported version, batch count mismatch, Undo) followed by 1..4 requests of 1..6 placeholder actions (set / read / read-or-id / read with an explicit identifier / forward a nested request to a back-end executor / clear / fail / set-then-fail / fail on the first run only, each item optionally carrying a non-critical message extension); the executor has no batch item middleware, a pass-through one, one that turns a handler error into a successful item, or one that runs a failed item once more; "+
+	rec := evid.New("C15", name, "1..4 connections (through a real Server over an in-memory listener in a synctest bubble) or 2..6 goroutines calling HandleRequest directly, each issuing 0..2 requests that are rejected at message level (unsupported version, batch count mismatch, Undo) followed by 1..4 requests of 1..6 placeholder actions (set / set the empty string / read / read-or-id / read with an explicit identifier / forward a nested request to a back-end executor / clear / fail / set-then-fail / fail on the first run only, each item optionally carrying a non-critical message extension); the executor has no batch item middleware, a pass-through one, one that turns a handler error into a successful item, or one that runs a failed item once more; "+
 		"rendezvous items inside the first request of every connection force the requests to overlap in time at chosen items; values are unique per request; oracle: per-request placeholder model (empty at start, set visible to later items, never a foreign value); "+
 		"non-trivial = set followed by read in a request that overlaps another one, or a second request on a connection after a set; distinct by case").Attach(t)
 	if rp := evid.LoadReplay(name); rp != nil {
@@ -439,7 +442,7 @@ func TestC15Placeholder(t *testing.T) {
 		}
 		return
 	}
-	actions := []string{"set", "set", "read", "read", "readorid", "readexplicit", "nested", "clear", "fail", "setfail", "failonce"}
+	actions := []string{"set", "set", "read", "read", "readorid", "readexplicit", "nested", "clear", "setempty", "fail", "setfail", "failonce"}
 	rapid.Check(t, func(rt *rapid.T) {
 		c := c15Case{Direct: rapid.Bool().Draw(rt, "direct"), ItemMiddleware: rapid.SampledFrom([]string{"", "", "pass", "absorb", "retry"}).Draw(rt, "item-middleware")}
 		nconn := rapid.IntRange(1, 4).Draw(rt, "connections")
